@@ -826,7 +826,17 @@ func (x *Exec) evalSpecFn(sf *SpecFunc, e *Expr, env *Env) Val {
 			ts = append(ts, x.termOf(x.evalSpec(a, env)))
 		}
 		x.P.usedRec[sf.Name] = true
+		x.P.ensureRecDef(sf)
+		x.P.mu.Lock()
+		hks := append([]heapParam(nil), x.P.recHeapKeys[sf.Name]...)
+		x.P.mu.Unlock()
+		for _, hk := range hks {
+			ts = append(ts, x.heapFor(env, hk.key, hk.sort))
+		}
 		r := sx(sf.Name, ts...)
+		if len(ts) == 0 {
+			r = sf.Name
+		}
 		switch sf.RetType {
 		case "bool":
 			return specBool(r)
